@@ -2063,7 +2063,11 @@ func (P) Generate(g *core.Gen) {
 			g.Case(class+"-lazy", true, fmt.Sprintf("C04 lazy %s %d", key, lazyPeriod+g.R.Intn(n-lazyPeriod+1)))
 		}
 		// power-loss images: block files cut back to what had been fsynced at commit k
-		for i := 0; i < 2 && n > 3; i++ {
+		nsync := 1
+		if g.Thorough() {
+			nsync = 3
+		}
+		for i := 0; i < nsync && n > 3; i++ {
 			g.Case(class+"-sync", true, fmt.Sprintf("C04 sync %s %d", key, 4+g.R.Intn(n-3)))
 		}
 		for i := 0; i < nk && n > 3; i++ {
@@ -2151,10 +2155,10 @@ func (P) Generate(g *core.Gen) {
 		emit("reorg-invalid", r.Intn(2), "0", wlReorg(r, 2, r.Intn(2), 3, false, r.Intn(3)), 1, 0, 0)
 		emit("invalid", r.Intn(2), "0", wlInvalid(r), 1, 0, 0)
 		emit("tree", r.Intn(2), "0", wlTree(r, 7), 2, 1, 2)
-		emit("prune", 1, "2000:1000", wlLong(r, 14+r.Intn(3), false), 6, 2, 3)
+		emit("prune", 1, "2000:1000", wlLong(r, 14+r.Intn(3), false), 8, 1, 3)
 		emit("prune", 0, "2000:1000", wlLong(r, 11, true), 9, 1, 2)
 		emit("prune-reorg", r.Intn(2), "2000:1000", wlPruneReorg(r, 8+r.Intn(3), 1+r.Intn(2), 1, 1+r.Intn(2)), 4, 0, 0)
-		emit("prune-edge", 1, "2000:1000", wlPruneEdge(r, 15, 24), 5, 0, 0)
+		emit("prune-edge", 1, "2000:1000", wlPruneEdge(r, 15, 24), 7, 0, 0)
 		emit("attach-dspend", r.Intn(2), "0", wlAttachDoubleSpend(r, 2+r.Intn(2)), 3, 0, 0)
 	} else {
 		for i := 0; i < 8; i++ {
